@@ -301,6 +301,7 @@ pub struct C19Case {
 pub fn c19_strategy(_ctx: &Ctx) -> BoxedStrategy<C19Case> {
   let shape = prop::sample::select(vec![
     "merge", "zip", "amb", "flat_map", "take_until", "skip_until", "sample", "subject", "behavior", "replay", "async",
+    "replay_late", "behavior_late",
   ]);
   // thread 0 ends with error (or fires the trigger), thread 1 emits items (+ own terminal)
   (shape, 0usize..=3, 1usize..=4, prop::sample::select(vec![0u8, 1, 2]), any::<bool>(), sched_strategy())
@@ -350,6 +351,17 @@ pub fn c19_strategy(_ctx: &Ctx) -> BoxedStrategy<C19Case> {
             vec![emit(0, &src_script), emit(1, &trig)],
           )
         }
+        "replay_late" | "behavior_late" => {
+          // the subject already holds a history; the subscriber arrives on one thread
+          // while another thread terminates the subject (and a third may push items)
+          let kind = if shape == "replay_late" { HotKind::Replay } else { HotKind::Behavior(-1) };
+          let term = if third { Ev::C } else { Ev::E(1) };
+          let mut th = vec![vec![Action::Subscribe(0)], vec![Action::Emit(0, term)]];
+          if len0 > 0 {
+            th.push(emit(0, &unique_script(1, len0, None)));
+          }
+          (hot(0), vec![kind], th)
+        }
         _ => {
           let kind = match shape {
             "subject" => HotKind::Subject,
@@ -369,7 +381,12 @@ pub fn c19_strategy(_ctx: &Ctx) -> BoxedStrategy<C19Case> {
           t.push(Action::Advance(0));
         }
       }
-      let case = Case { root, hots, hot_illformed: false, conn: None, conn_take: None, recorders: vec![vec![]], actions: vec![Action::Subscribe(0)] };
+      let actions = if shape.ends_with("_late") {
+        emit(0, &unique_script(2, len1, None))
+      } else {
+        vec![Action::Subscribe(0)]
+      };
+      let case = Case { root, hots, hot_illformed: false, conn: None, conn_take: None, recorders: vec![vec![]], actions };
       C19Case { cc: ConcCase { case, threads, sched }, shape: shape.to_string() }
     })
     .boxed()
@@ -406,6 +423,20 @@ fn c19_check(_ctx: &Ctx, c: &C19Case) -> Report {
     for e in &evs {
       if e.start <= t.end {
         continue;
+      }
+      if c.shape.ends_with("_late") {
+        // a subject hands its history to a new subscriber item by item on the subscribing
+        // thread: the delivery of an item starts after the previous item's callback returned
+        let prev_end = evs.iter().filter(|p| p.tid == e.tid && p.end <= e.start).map(|p| p.end).max();
+        if let Some(pe) = prev_end {
+          if pe > t.end {
+            rep.fail = fail(format!(
+              "{} delivered (start stamp {}) although the terminal callback had returned (stamp {}) before the previous callback on that thread did (stamp {}): its delivery started after the terminal",
+              e.k.show(), e.start, t.end, pe
+            ));
+            return rep;
+          }
+        }
       }
       // delivered after the terminal callback returned: allowed only for an emission that
       // had started before
